@@ -284,6 +284,9 @@ struct Parser<'a> {
     /// This is used for parsing something like `let v: Vec<Length>= ...`, where
     /// the `>=` is being tokenized as a TokenKind::GreaterOrEqual.
     pending_equals: Option<Span>,
+    /// Set when a token was consumed while the `=` of a split `>=` was still pending:
+    /// the `=` must be the very next thing the grammar consumes.
+    unmatched_split_equals: Option<Span>,
 }
 
 impl<'a> Parser<'a> {
@@ -292,6 +295,7 @@ impl<'a> Parser<'a> {
             current: 0,
             decorator_stack: vec![],
             pending_equals: None,
+            unmatched_split_equals: None,
         }
     }
 
@@ -484,6 +488,24 @@ impl<'a> Parser<'a> {
     }
 
     fn statement(&mut self, tokens: &[Token<'a>]) -> Result<Statement<'a>> {
+        let result = self.statement_inner(tokens);
+        // A `>=` that closes a type-parameter or type-argument list stands for `>` followed
+        // by `=`. That `=` has to be consumed by the grammar right there; it must not be
+        // dropped (`struct S<T>= {…}`) or picked up later (`fn f(x: A<B>=) 1`).
+        let dangling = self
+            .unmatched_split_equals
+            .take()
+            .or(self.pending_equals.take());
+        match (result, dangling) {
+            (Ok(_), Some(span)) => Err(ParseError::new(
+                ParseErrorKind::TrailingCharacters("=".to_owned()),
+                span,
+            )),
+            (result, _) => result,
+        }
+    }
+
+    fn statement_inner(&mut self, tokens: &[Token<'a>]) -> Result<Statement<'a>> {
         if !(self.peek(tokens).kind == TokenKind::At
             || self.peek(tokens).kind == TokenKind::Unit
             || self.peek(tokens).kind == TokenKind::Let
@@ -2028,12 +2050,12 @@ impl<'a> Parser<'a> {
             }
             TokenKind::GreaterOrEqual => {
                 // Split the >= token: consume the > part and save the = for later
+                self.advance(tokens);
                 self.pending_equals = Some(Span {
                     start: token.span.start + 1,
                     end: token.span.end,
                     code_source_id: token.span.code_source_id,
                 });
-                self.advance(tokens);
                 true
             }
             _ => false,
@@ -2086,6 +2108,9 @@ impl<'a> Parser<'a> {
     }
 
     fn advance(&mut self, tokens: &[Token]) {
+        if let Some(span) = self.pending_equals.take() {
+            self.unmatched_split_equals.get_or_insert(span);
+        }
         if !self.is_at_end(tokens) {
             self.current += 1;
         }
